@@ -11,6 +11,7 @@ import (
 	"encoding/hex"
 	"encoding/json"
 	"fmt"
+	"hash"
 	"math/rand"
 	"os"
 	"path/filepath"
@@ -31,6 +32,9 @@ import (
 )
 
 func main() { vlib.Main(run, replay) }
+
+// sampledOnce makes sure the evidence carries at least one sample.
+var sampledOnce bool
 
 // ---------------------------------------------------------------------------
 // configuration
@@ -107,6 +111,10 @@ func armFaults(f faultPlan) {
 			if f.linkUnreadable(name) {
 				return syscall.EACCES
 			}
+		case "read":
+			if failNextRead.CompareAndSwap(true, false) {
+				return syscall.EIO
+			}
 		}
 		return nil
 	})
@@ -123,6 +131,12 @@ func devOf(path string) (uint64, bool) {
 // realScan calls core.Scan under a watchdog.
 func realScan(root string, cfg config, faults faultPlan, baseline *core.Snapshot, recheck map[string]bool,
 	cache *core.Cache, icache ignore.IgnoreCache) scanOut {
+	return realScanWith(context.Background(), sha1.New(), root, cfg, faults, baseline, recheck, cache, icache)
+}
+
+// realScanWith is realScan with the caller's context and (long-lived) hasher.
+func realScanWith(ctx context.Context, hasher hash.Hash, root string, cfg config, faults faultPlan, baseline *core.Snapshot,
+	recheck map[string]bool, cache *core.Cache, icache ignore.IgnoreCache) scanOut {
 	dev, haveDev := devOf(root)
 	if cfg.Forced && haveDev {
 		core.VerifSetBehavior(dev, true, cfg.Pres, cfg.Decomp)
@@ -133,8 +147,8 @@ func realScan(root string, cfg config, faults faultPlan, baseline *core.Snapshot
 	ch := make(chan scanOut, 1)
 	go func() {
 		var o scanOut
-		o.snap, o.cache, o.icache, o.err = core.Scan(context.Background(), root, baseline, recheck,
-			sha1.New(), cache, &tableIgnorer{}, icache, behavior.ProbeMode_ProbeModeProbe,
+		o.snap, o.cache, o.icache, o.err = core.Scan(ctx, root, baseline, recheck,
+			hasher, cache, &tableIgnorer{}, icache, behavior.ProbeMode_ProbeModeProbe,
 			symModes[cfg.Sym], permModes[cfg.Perm])
 		ch <- o
 	}()
@@ -284,7 +298,7 @@ func subSeed(seed int64, idx int) int64 {
 
 // c12Case builds one random tree and scans it under the requested
 // configurations (all of them when only < 0).
-func c12Case(c *vlib.Ctx, cseed int64, only int) {
+func c12Case(c *vlib.Ctx, cseed int64, only int, abortKind string) {
 	r := rand.New(rand.NewSource(cseed))
 	g := &gen{r: r, budget: 12 + r.Intn(40), rich: true}
 	base := c.TempDir("c12-")
@@ -295,6 +309,10 @@ func c12Case(c *vlib.Ctx, cseed int64, only int) {
 	defer g.unmountAll()
 	if tree.kind == "dir" && r.Intn(8) == 0 {
 		g.mountSomewhere(root)
+	}
+	var big string
+	if abortKind != "" && tree.kind == "dir" {
+		big = g.placeBig(root, abortKind, 0)
 	}
 	faults := faultPlan{on: true}
 	probed := probePreserves(base)
@@ -309,20 +327,36 @@ func c12Case(c *vlib.Ctx, cseed int64, only int) {
 		if only >= 0 && i != only {
 			continue
 		}
-		o := realScan(root, cfg, faults, nil, nil, nil, nil)
+		var o scanOut
+		var aborted map[string]any
+		if big != "" && i == 0 {
+			// a cold scan abandoned while hashing, then the retry with the same hasher
+			h := &trapHasher{Hash: sha1.New()}
+			aborted = abortedAttempt(abortKind, big, h, func(ctx context.Context) scanOut {
+				return realScanWith(ctx, h, root, cfg, faults, nil, nil, nil, nil)
+			})
+			o = realScanWith(context.Background(), h, root, cfg, faults, nil, nil, nil, nil)
+			c.AddExtra("retries_after_abort_"+abortKind, 1)
+		} else {
+			o = realScan(root, cfg, faults, nil, nil, nil, nil)
+		}
 		rec := map[string]any{
 			"ev":    "Scan",
-			"in":    map[string]any{"cseed": int(cseed), "cfg": i},
+			"in":    map[string]any{"cseed": int(cseed), "cfg": i, "abort": abortKind},
 			"cfg":   vlib.ToMap(cfg),
 			"facts": facts,
 			"scan":  encScan(o),
+		}
+		if aborted != nil {
+			rec["aborted"] = aborted
 		}
 		c.Emit(rec)
 		c.Eval()
 		if nodes >= 3 && o.err == nil && !o.hung {
 			c.NonTrivial(fmt.Sprintf("%d/%d", cseed, i))
 		}
-		if i == 0 && r.Intn(40) == 0 {
+		if i == 0 && (r.Intn(40) == 0 || !sampledOnce) {
+			sampledOnce = true
 			c.Sample(map[string]any{"in": rec["in"], "cfg": rec["cfg"], "nodes": nodes, "dirs": rec["scan"].(map[string]any)["dirs"]})
 		}
 	}
@@ -416,7 +450,7 @@ func parentTok(tp string) string {
 
 var recheckModes = []string{"exact", "exact", "extras", "extras", "parents", "deficient"}
 
-func c13Case(c *vlib.Ctx, cseed int64, upto int) {
+func c13Case(c *vlib.Ctx, cseed int64, upto int, abortKind string) {
 	r := rand.New(rand.NewSource(cseed))
 	g := &gen{r: r, budget: 14 + r.Intn(30), rich: r.Intn(4) == 0}
 	decompCase := r.Intn(7) == 0
@@ -447,6 +481,12 @@ func c13Case(c *vlib.Ctx, cseed int64, upto int) {
 		vlib.Fatal("baseline scan failed: %v", b.err)
 	}
 	rounds := 1 + r.Intn(4)
+	if abortKind != "" && tree.kind == "dir" {
+		rounds = 2
+	} else {
+		abortKind = ""
+	}
+	hasher := &trapHasher{Hash: sha1.New()} // one hasher for the whole case, as an endpoint has
 	for round := 1; round <= rounds; round++ {
 		edits := []any{}
 		nEdits := r.Intn(6)
@@ -470,9 +510,17 @@ func c13Case(c *vlib.Ctx, cseed int64, upto int) {
 				edits = append(edits, ascii(g.edit(root)))
 			}
 		}
+		var big string
+		if abortKind != "" {
+			big = g.placeBig(root, abortKind, round) // created or rewritten: it will be hashed by the next scan
+			edits = append(edits, "place "+bigName)
+		}
 		newF, nodes := walkRoot(root, faults)
 		changed := changedPaths(oldF, newF)
 		mode := recheckModes[r.Intn(len(recheckModes))]
+		if big != "" {
+			mode = "exact"
+		}
 		set := map[string]bool{}
 		for _, p := range changed {
 			if mode == "parents" && p != "" {
@@ -521,13 +569,21 @@ func c13Case(c *vlib.Ctx, cseed int64, upto int) {
 			rtoks = append(rtoks, pathToks(raw))
 			rnfc = append(rnfc, pathToks(norm.NFC.String(raw)))
 		}
-		acc := realScan(root, cfg, faults, b.snap, recheck, b.cache, b.icache)
+		var aborted map[string]any
+		if big != "" {
+			// the accelerated scan is abandoned while hashing; the retry below re-uses hasher, baseline,
+			// caches and re-check set
+			aborted = abortedAttempt(abortKind, big, hasher, func(ctx context.Context) scanOut {
+				return realScanWith(ctx, hasher, root, cfg, faults, b.snap, recheck, b.cache, b.icache)
+			})
+		}
+		acc := realScanWith(context.Background(), hasher, root, cfg, faults, b.snap, recheck, b.cache, b.icache)
 		cold := realScan(root, cfg, faults, nil, nil, nil, nil)
 		sampleDraw := r.Intn(60)
 		if upto < 0 || round == upto {
 			rec := map[string]any{
 				"ev":          "Accel",
-				"in":          map[string]any{"cseed": int(cseed), "round": round},
+				"in":          map[string]any{"cseed": int(cseed), "round": round, "abort": abortKind},
 				"cfg":         vlib.ToMap(cfg),
 				"mode":        mode,
 				"edits":       edits,
@@ -539,12 +595,17 @@ func c13Case(c *vlib.Ctx, cseed int64, upto int) {
 				"accel":       encScan(acc),
 				"cold":        encScan(cold),
 			}
+			if aborted != nil {
+				rec["aborted"] = aborted
+				c.AddExtra("retries_after_abort_"+abortKind, 1)
+			}
 			c.Emit(rec)
 			c.Eval()
 			if len(changed) > 0 && mode != "deficient" && acc.err == nil && cold.err == nil {
 				c.NonTrivial(fmt.Sprintf("%d/%d", cseed, round))
 			}
-			if sampleDraw == 0 {
+			if sampleDraw == 0 || !sampledOnce {
+				sampledOnce = true
 				c.Sample(map[string]any{"in": rec["in"], "cfg": rec["cfg"], "mode": mode, "edits": edits, "nodes": nodes, "changed": len(changed), "recheck": len(rlist)})
 			}
 			c.AddExtra("rounds_"+mode, 1)
@@ -573,6 +634,14 @@ func c13Case(c *vlib.Ctx, cseed int64, upto int) {
 
 // ---------------------------------------------------------------------------
 
+// abortKindFor makes every period-th case one in which a scan is abandoned part-way.
+func abortKindFor(i, period int) string {
+	if i%period != period/2 {
+		return ""
+	}
+	return []string{"readerr", "mismatch", "cancel"}[(i/period)%3]
+}
+
 func argInt(c *vlib.Ctx, key string, def int) int {
 	for _, a := range c.Args {
 		if strings.HasPrefix(a, key+"=") {
@@ -590,12 +659,12 @@ func run(c *vlib.Ctx) error {
 	case "C12":
 		n := argInt(c, "trees", 150)
 		for i := 0; i < n; i++ {
-			c12Case(c, subSeed(c.Seed, i), -1)
+			c12Case(c, subSeed(c.Seed, i), -1, abortKindFor(i, 15))
 		}
 	case "C13":
 		n := argInt(c, "cases", 250)
 		for i := 0; i < n; i++ {
-			c13Case(c, subSeed(c.Seed, 1_000_000+i), -1)
+			c13Case(c, subSeed(c.Seed, 1_000_000+i), -1, abortKindFor(i, 18))
 		}
 		// growth: the same statement on the real local endpoint in recursive-watch mode
 		for i, m := 0, argInt(c, "endpoints", 8); i < m; i++ {
@@ -618,12 +687,14 @@ func replay(c *vlib.Ctx) error {
 	}
 	switch c.Prop {
 	case "C12":
-		c12Case(c, num("cseed"), int(num("cfg")))
+		ak, _ := in["abort"].(string)
+		c12Case(c, num("cseed"), int(num("cfg")), ak)
 	case "C13":
 		if k, _ := in["kind"].(string); k == "endpoint" {
 			endpointCase(c, num("cseed"), int(num("step")))
 		} else {
-			c13Case(c, num("cseed"), int(num("round")))
+			ak, _ := in["abort"].(string)
+			c13Case(c, num("cseed"), int(num("round")), ak)
 		}
 	default:
 		return fmt.Errorf("scan driver does not know property %s", c.Prop)
